@@ -16,7 +16,7 @@ MODES = [
     ("sim", "xfer", "filter", 1500), ("sim", "xfer", "stream", 1500), ("sim", "xfer", "faultenum", 300),
     ("sim", "xfer", "limits", 40),
     ("sim", "sink", "json", 600), ("sim", "sink", "mp", 600),
-    ("conc", "conc", "parked", 240),
+    ("conc", "conc", "parked", 240), ("conc", "conc", "cold", 48),
 ]
 
 
